@@ -258,7 +258,7 @@ func (x *Exec) callFunction(st *State, fr *Frame, site ssa.Instruction, fn *ssa.
 // "no event, modifies nothing, result arbitrary, does not panic" - recorded under the assumed
 // contracts as "default:<name>" - so that adding a log line or a formatted error does not turn a
 // check into an engine error. Methods and everything else still need an explicit contract.
-var effectFreePkgs = map[string]bool{"fmt": true, "log": true, "errors": true, "strconv": true, "strings": true,
+var effectFreePkgs = map[string]bool{"bytes": true, "fmt": true, "log": true, "errors": true, "strconv": true, "strings": true,
 	"unicode": true, "unicode/utf8": true, "math": true, "math/bits": true, "path": true, "sort": false}
 
 func (x *Exec) defaultContract(fn *ssa.Function) *Contract {
